@@ -251,3 +251,39 @@ class ABytes:
         if idx < 0 or idx >= n:
             it.raise_exc('IndexError', 'index out of range', it.here(node, frame) if node is not None else None)
         return self.at(idx)
+
+
+def abytes_eq(a, b):
+    """equality where at least one side has symbolic length"""
+    if not isinstance(a, ABytes):
+        a, b = b, a
+    if isinstance(b, ABytes):
+        i = z3.Int('__eqi')
+        return z3.And(sx.lift_int(a.length) == sx.lift_int(b.length),
+                      z3.ForAll([i], z3.Implies(z3.And(i >= 0, i < a.length), z3.Select(a.arr, a.off + i) == z3.Select(b.arr, b.off + i))))
+    if not is_bytes(b):
+        return False
+    items = items_of(b)
+    return sx.And(sx.lift_int(a.length) == len(items), *[a.at(k) == x for k, x in enumerate(items)])
+
+
+def _abytes_getattr(self, it, name):
+    """methods of symbolic-length byte strings that the parsers use"""
+    from .values import Builtin as _B
+    if name == 'ljust':
+        def ljust(width, fill=b'\x00'):
+            f = items_of(fill)
+            if len(f) != 1 or is_sym(f[0]):
+                raise Unsupported('ljust fill')
+            w = sx.lift_int(width)
+            n = z3.If(w > self.length, w, self.length)
+            # bytes beyond the old length are the fill byte
+            i = z3.Int('__lj')
+            arr2 = z3.Lambda([i], z3.If(z3.And(i >= self.off, i < self.off + self.length), z3.Select(self.arr, i), z3.IntVal(f[0])))
+            it.ctx.ghost.setdefault('allocs', []).append(n)
+            return ABytes(arr2, self.off, n)
+        return _B('bytes.ljust', ljust)
+    raise Unsupported('method %s on symbolic-length bytes' % name)
+
+
+ABytes._pyvc_getattr = _abytes_getattr
